@@ -52,9 +52,25 @@ fn c08_extent_word_sequential() {
 #[kani::stub(parking_lot::raw_rwlock::RawRwLock::unlock_exclusive_slow, s_unlock_ex)]
 #[kani::stub(parking_lot::raw_rwlock::RawRwLock::lock_shared_slow, s_lock_sh)]
 #[kani::stub(parking_lot::raw_rwlock::RawRwLock::unlock_shared_slow, s_unlock_sh)]
+#[kani::stub(std::sync::Arc::drop_slow, noop_drop_slow)]
 fn c02_successor_durability_walk() {
+    successor_walk(kani::any())
+}
+
+/// quick-tier instance: the two-successor chain only
+#[kani::proof]
+#[kani::unwind(5)]
+#[kani::stub(parking_lot::raw_rwlock::RawRwLock::lock_exclusive_slow, s_lock_ex)]
+#[kani::stub(parking_lot::raw_rwlock::RawRwLock::unlock_exclusive_slow, s_unlock_ex)]
+#[kani::stub(parking_lot::raw_rwlock::RawRwLock::lock_shared_slow, s_lock_sh)]
+#[kani::stub(parking_lot::raw_rwlock::RawRwLock::unlock_shared_slow, s_unlock_sh)]
+#[kani::stub(std::sync::Arc::drop_slow, noop_drop_slow)]
+fn c02_successor_durability_walk_chain2() {
+    successor_walk(2)
+}
+
+fn successor_walk(n: u8) {
     let old = Arc::new(rec(1));
-    let n: u8 = kani::any();
     kani::assume(n <= 2);
     let s1_sector: u64 = kani::any();
     let s2_sector: u64 = kani::any();
@@ -96,6 +112,7 @@ fn c02_successor_durability_walk() {
 /// retirement_timestamp = max(retired_at) over the record and its whole successor chain
 #[kani::proof]
 #[kani::unwind(5)]
+#[kani::stub(std::sync::Arc::drop_slow, noop_drop_slow)]
 fn c07_retirement_timestamp_is_chain_max() {
     let old = Arc::new(rec(1));
     let s1 = Arc::new(rec(2));
